@@ -87,6 +87,7 @@ fn fixpoint(n: usize) {
 //@ desc: generic Merge::merge_recursive/second_pass_merge on 3 symbolic elements (closed integer intervals in 0..12, merge = union when touching): the result is pairwise unmergeable (a fixpoint), covers exactly the union of the inputs, and the recursion terminates within 4 levels (unwinding assertion); bounded-capacity Vec stubs
 //@ encodes: Merge::merge_recursive, Merge::second_pass_merge (generic default methods; instantiation: harness-defined interval type)
 #[kani::proof]
+#[kani::stub(std::io::_print, crate::kstub::noop_print)]
 #[kani::unwind(6)]
 #[kani::stub(std::vec::Vec::new, crate::kstub::vec_new_cap)]
 #[kani::stub(std::vec::Vec::push, crate::kstub::push_nogrow)]
@@ -98,6 +99,7 @@ fn o9_3_merge_fixpoint_3() {
 //@ desc: as o9_3_merge_fixpoint_3 with 4 symbolic elements
 //@ encodes: Merge::merge_recursive, Merge::second_pass_merge
 #[kani::proof]
+#[kani::stub(std::io::_print, crate::kstub::noop_print)]
 #[kani::unwind(7)]
 #[kani::stub(std::vec::Vec::new, crate::kstub::vec_new_cap)]
 #[kani::stub(std::vec::Vec::push, crate::kstub::push_nogrow)]
